@@ -15,7 +15,13 @@ import (
 	"time"
 )
 
-const Root = "/verif"
+// Root is the machinery directory (VERIF_ROOT is set by ./check; /verif by default).
+var Root = func() string {
+	if r := os.Getenv("VERIF_ROOT"); r != "" {
+		return r
+	}
+	return "/verif"
+}()
 
 // Violation is one property violation found by a check.
 type Violation struct {
